@@ -31,34 +31,60 @@ def _setup(analysis: Analysis, flavour: str, ext: str):
     fac = analysis.p.find_method(ctx.tasks, "_schedule_factory")
     outs = it.call_func(st, BoundV(tasks, fac), [save], {}, fac.node)
     vals = [(s, v) for k, s, v in outs if k == "val"]
-    if len(vals) != 1 or not isinstance(vals[0][1], FuncV):
-        raise AnalysisError(f"C15: {fac.qual} does not return a single closure")
+    if len(vals) != 1 or target_info(vals[0][1]) is None:
+        raise AnalysisError(f"C15: {fac.qual} does not return a single scheduler callable (closure, bound method or partial)")
     return ctx, it, vals[0][0], vals[0][1], tasks, fac
+
+
+def target_info(v):
+    """The repo function behind a callable value: closure, bound method or functools.partial of one."""
+    from ..values import PartialV
+
+    while isinstance(v, PartialV):
+        v = v.fn
+    if isinstance(v, (FuncV, BoundV)):
+        return v.info
+    return None
+
+
+def in_scope(func: str, *infos) -> bool:
+    """Is `func` one of the given functions or nested in one of them?"""
+    return any(i is not None and (func == i.qual or func.startswith(i.qual + ".")) for i in infos)
 
 
 def sync_worker(analysis: Analysis, ext: str) -> dict:
     ctx, it, st, closure, tasks, fac = _setup(analysis, "sync", ext)
-    outs = it.call_func(st, closure, [], {}, closure.info.node)
+    cinfo = target_info(closure)
+    outs = it.call(st, closure, [], {}, cinfo.node)
     analysis.interp_steps += it.steps
     rows = []
     for out in outs:
         kind, s, v = out
         timers = [e for e in s.events if e.kind == "call" and e.name == "threading.Timer.start" and isinstance(e.recv, ExtObj)]
-        armed = [e for e in timers if len(e.recv.args) > 1 and isinstance(e.recv.args[1], FuncV) and e.recv.args[1].info.qual == closure.info.qual]
+        armed = [e for e in timers if len(e.recv.args) > 1 and target_info(e.recv.args[1]) is cinfo]
         pub = [e for e in s.events if e.kind == "store" and e.name == "_cancel_save"]
         pub_ok = any(isinstance(e.args[0], ExtV) and e.args[0].name == "threading.Timer.cancel" and armed and e.args[0].recv is not None and e.args[0].recv.key() == armed[-1].recv.key() for e in pub)
-        failed = [e for e in s.events if e.kind == "catch" and e.func.startswith(fac.qual + ".")]
+        failed = [e for e in s.events if e.kind == "catch" and in_scope(e.func, cinfo, fac)]
         save_i = [i for i, e in enumerate(s.events) if e.kind == "enter" and e.name == "persistence:Persistence.save_sensors"]
         arm_i = [i for i, e in enumerate(s.events) if e in armed]
         interval = armed[-1].recv.args[0].value if armed and isinstance(armed[-1].recv.args[0], Const) else None
         rows.append({"kind": kind, "exc": f"{v.cls.__name__} at {v.site}" if kind == "raise" else None, "armed": len(armed), "pub_ok": pub_ok, "failed": [e.name for e in failed], "save_first": bool(save_i and arm_i and save_i[0] < arm_i[-1]), "interval": interval, "witness": describe_path(out, 24)})
-    return {"qual": closure.info.qual, "ext": ext, "rows": rows}
+    return {"qual": cinfo.qual, "ext": ext, "rows": rows}
 
 
 def async_worker(analysis: Analysis, ext: str) -> dict:
     ctx, it, st, closure, tasks, fac = _setup(analysis, "async", ext)
     # schedule_save is async: run its body, find the spawned save task
-    outs = it.call_func(st, closure, [], {}, closure.info.node)
+    cinfo = target_info(closure)
+    outs = it.call(st, closure, [], {}, cinfo.node)
+    if cinfo.is_async:
+        res0 = []
+        for kind, s, v in outs:
+            if kind == "val" and isinstance(v, FutureV):
+                res0.extend(it.call_func(s, v.fn, list(v.args), v.kwargs, cinfo.node))
+            else:
+                res0.append((kind, s, v))
+        outs = res0
     spawned = None
     pub = None
     st2 = None
@@ -73,16 +99,16 @@ def async_worker(analysis: Analysis, ext: str) -> dict:
                 pub = e.args[0]
         st2 = s
     if spawned is None or st2 is None:
-        raise AnalysisError(f"C15: {closure.info.qual} does not create a save task")
+        raise AnalysisError(f"C15: {cinfo.qual} does not create a save task")
     loop_fn = spawned.fn
-    outs2 = it.call_func(st2.copy(), loop_fn, list(spawned.args), spawned.kwargs, loop_fn.info.node)
+    linfo = target_info(loop_fn)
+    outs2 = it.call_func(st2.copy(), loop_fn, list(spawned.args), spawned.kwargs, linfo.node)
     rows = []
     for out in outs2:
         kind, s, v = out
         seq = []
-        prefix = fac.qual + "."
         for e in s.events:
-            if not e.func.startswith(prefix) and not (e.kind == "enter" and e.name == "persistence:Persistence.save_sensors"):
+            if not in_scope(e.func, fac, linfo, cinfo) and not (e.kind == "enter" and e.name == "persistence:Persistence.save_sensors"):
                 continue
             if e.kind == "enter" and e.name == "persistence:Persistence.save_sensors":
                 seq.append("save")
@@ -95,15 +121,14 @@ def async_worker(analysis: Analysis, ext: str) -> dict:
         rows.append({"kind": kind, "exc": f"{v.cls.__name__} at {v.site}" if kind == "raise" else None, "seq": seq, "witness": describe_path(out, 26)})
     # the cancel closure
     cancel_ok = False
-    if isinstance(pub, FuncV):
-        import ast
-
+    pinfo = target_info(pub) if pub is not None else None
+    if pinfo is not None:
         from ..frontend import unparse
 
-        txt = unparse(pub.info.node)
+        txt = unparse(pinfo.node)
         cancel_ok = ".cancel()" in txt and "await" in txt
     analysis.interp_steps += it.steps
-    return {"qual": loop_fn.info.qual, "ext": ext, "rows": rows, "published": isinstance(pub, FuncV), "cancel_ok": cancel_ok, "sched": closure.info.qual}
+    return {"qual": linfo.qual, "ext": ext, "rows": rows, "published": pinfo is not None, "cancel_ok": cancel_ok, "sched": cinfo.qual}
 
 
 def run(analysis: Analysis, tier: str) -> RuleResult:
